@@ -19,6 +19,7 @@ mod genmeta;
 mod scen_c13;
 mod scen_c14;
 mod scen_c17;
+mod scen_rd;
 mod scen_rt;
 mod world;
 
@@ -37,6 +38,9 @@ pub fn lookup(scen: &str) -> Option<Scenario> {
     Some(match scen {
         "rt" => scen_rt::run,
         "c13" => scen_c13::run,
+        "c07" => scen_rd::run_c07,
+        "c07split" => scen_rd::run_c07_split,
+        "c06" => scen_rd::run_c06,
         "c14" => scen_c14::run,
         _ => return None,
     })
